@@ -107,8 +107,8 @@ impl Entry for Entry095 {
 
     fn from_fields(fields: &Sp<meta::Fields>) -> Result<Self, FromMetaError<'_>> {
         meta::ParseObject::scope(fields, |m| {
-            let stage = m.expect_field::<u32>("stage")? as u16;
-            let scene = m.expect_field::<u32>("scene")? as u16;
+            let stage = m.expect_field::<u16>("stage")?;
+            let scene = m.expect_field::<u16>("scene")?;
             let face = m.expect_field("face")?;
             let point = m.expect_field("point")?;
             let text = m.expect_field("text")?;
@@ -166,11 +166,11 @@ impl Entry for Entry125 {
 
     fn from_fields(fields: &Sp<meta::Fields>) -> Result<Self, FromMetaError<'_>> {
         meta::ParseObject::scope(fields, |m| {
-            let stage = m.expect_field::<u32>("stage")? as u16;
-            let scene = m.expect_field::<u32>("scene")? as u16;
-            let player = m.expect_field::<u32>("player")? as u16;
-            let unknown_1 = m.expect_field::<u32>("unknown_1")? as u8;
-            let unknown_2 = m.expect_field::<u32>("unknown_2")? as u8;
+            let stage = m.expect_field::<u16>("stage")?;
+            let scene = m.expect_field::<u16>("scene")?;
+            let player = m.expect_field::<u16>("player")?;
+            let unknown_1 = m.expect_field::<u8>("unknown_1")?;
+            let unknown_2 = m.expect_field::<u8>("unknown_2")?;
             let point_1 = m.expect_field("point_1")?;
             let point_2 = m.expect_field("point_2")?;
             let furigana = m.expect_field("furigana")?;
